@@ -60,7 +60,7 @@ type c09Attempt struct {
 	Status  int
 }
 
-var c09bMods = []string{"ps", "pe-coff", "msi", "cat", "jar", "cab", "deb", "rpm", "bigjar", "xap", "bigps"}
+var c09bMods = []string{"ps", "pe-coff", "msi", "cat", "jar", "cab", "deb", "rpm", "bigjar", "xap", "bigps", "vsix", "mach-o"}
 
 func c09Remote(r *core.Run) {
 	t := r.T
@@ -71,7 +71,7 @@ func c09Remote(r *core.Run) {
 	overlap := t.Chance(1, 3, "focus-overlapping-producers")
 	mods := c09bMods
 	if overlap {
-		mods = []string{"msi", "xap", "jar", "msi", "bigjar", "bigps", "bigps"}
+		mods = []string{"msi", "xap", "jar", "msi", "bigjar", "bigps", "bigps", "vsix", "mach-o"}
 	}
 	c := genSignCase(t, fmt.Sprintf("%dr", r.No), mods)
 	if c.Mod == "bigjar" {
